@@ -166,7 +166,9 @@ func dirtyPoint(r *kit.Rand, t int64) string {
 	tags := []string{"host=a"}
 	fields := []string{"v=" + renderValue(1.5)}
 	d := kit.Pick(r, dirtyStr)
-	switch r.Intn(8) {
+	switch r.Intn(9) {
+	case 8: // the recorded line is a line protocol comment (finding stream-hash-measurement)
+		name = kit.Pick(r, []string{"#", "#m", "#a b"})
 	case 0:
 		db = d
 	case 1:
